@@ -1,4 +1,207 @@
-/- C11 — property theorems (under construction). -/
-import Lmd.PeerLoop
+/-
+  C11 — a restarted or reconfigured backend is reloaded as a whole.
+
+  6. `init_all_or_nothing`, `served_old_or_new`, `new_set_is_backend`:
+       `InitAllTables` publishes the complete new set (every table synchronised from the backend's object
+       set) or leaves the old set in place / drops it — never a partial new set.
+  7. `rebuild_fail_flagged`: a failed rebuild leaves an error text and the peer is not `Up`.
+  8. `restart_detected_status`, `restart_detected_count`: a status refresh that sees another core start or
+       pid, and any full refresh with another number of rows, answers `restartRequired` and writes no row;
+       `restart_rebuilds`: the loop then rebuilds at once.
+
+  Helper lemmas live in `Lmd.Lemmas.PeerLemmas`.
+-/
+import Lmd.Lemmas.PeerLemmas
+
 namespace Lmd.C11
+open Lmd Lmd.PeerL
+
+/-- a small world for the examples: no schema (every table has no columns), default configuration -/
+def exWorld : World := { cfg := {}, schema := { tables := [] }, mainRestart := 100 }
+
+/-- a backend that answers, with one status row -/
+def exBackend : BackendSt :=
+  { tables := [("status", [[("program_start", Lean.Json.num 5), ("nagios_pid", Lean.Json.num 7)]])], cols := [] }
+
+/-- the same backend closing the connection on the fourth request -/
+def exFailing : BackendSt := { exBackend with failAfter := some 3 }
+
+/-! ## 6. all or nothing -/
+
+/-- `InitAllTables`, from any peer state against any backend behaviour, ends in one of two ways.
+    Success: the published set is exactly the set built from the backend's object set — `freshCache w b` holds
+    `syncTable` of the backend's rows for every table of `updateTables`, `rebuildLists` then fills the comment
+    and downtime id lists — and the requests did not change the backend's objects.
+    Failure: the published set is the one from before the rebuild, or none (dropped by the stale rule or because
+    the backend is not ready); no table of the half-built set is visible. -/
+theorem init_all_or_nothing (w : World) (now : Int) (p : PeerSt) (b : BackendSt) :
+    ((initAllTables w now p b).err = .none ∧
+        (initAllTables w now p b).p.cache = some (rebuildLists (freshCache w b)) ∧
+        (initAllTables w now p b).b.tables = b.tables) ∨
+    ((initAllTables w now p b).err ≠ .none ∧
+        ((initAllTables w now p b).p.cache = p.cache ∨ (initAllTables w now p b).p.cache = none)) := by
+  obtain ⟨h1, h2, h3⟩ := initAllTables_spec w now p b
+  by_cases he : (initAllTables w now p b).err = .none
+  · exact .inl ⟨he, (h2 he).1, h1⟩
+  · exact .inr ⟨he, (h3 he).1⟩
+
+/-- non-vacuity: both outcomes occur — a rebuild that succeeds, and one that fails at a later request and leaves
+    the (here: empty) old state -/
+example : (initAllTables exWorld 100 {} exBackend).err = .none := by decide
+example : (initAllTables exWorld 100 {} exFailing).err ≠ .none ∧
+    (initAllTables exWorld 100 {} exFailing).p.cache = none := by decide
+
+/-- What a client can be served for this backend after a rebuild attempt is the complete previous set, nothing,
+    or the complete new set. -/
+theorem served_old_or_new (w : World) (now : Int) (p : PeerSt) (b : BackendSt) :
+    (initAllTables w now p b).p.cache = p.cache ∨ (initAllTables w now p b).p.cache = none ∨
+      (initAllTables w now p b).p.cache = some (rebuildLists (freshCache w b)) := by
+  rcases init_all_or_nothing w now p b with ⟨_, h, _⟩ | ⟨_, h | h⟩
+  · exact .inr (.inr h)
+  · exact .inl h
+  · exact .inr (.inl h)
+
+/-- The complete new set, table by table: every table other than hosts and services is the synchronised object
+    set of the backend (`syncTable`: coerced rows sorted by primary key); hosts and services are the synchronised
+    object sets with the comment and downtime id lists rebuilt from the synchronised comments and downtimes. -/
+theorem new_set_is_backend (w : World) (b : BackendSt) :
+    (∀ t, t ∈ updateTables → t ≠ "hosts" → t ≠ "services" →
+      (rebuildLists (freshCache w b)).get t = syncTable (tableOf w t) (b.rows t)) ∧
+    (rebuildLists (freshCache w b)).get "hosts" =
+      (buildIdLists "downtimes" (syncTable (tableOf w "downtimes") (b.rows "downtimes"))
+        (buildIdLists "comments" (syncTable (tableOf w "comments") (b.rows "comments"))
+          (syncTable (tableOf w "hosts") (b.rows "hosts")) (syncTable (tableOf w "services") (b.rows "services"))).1
+        (buildIdLists "comments" (syncTable (tableOf w "comments") (b.rows "comments"))
+          (syncTable (tableOf w "hosts") (b.rows "hosts")) (syncTable (tableOf w "services") (b.rows "services"))).2).1 ∧
+    (rebuildLists (freshCache w b)).get "services" =
+      (buildIdLists "downtimes" (syncTable (tableOf w "downtimes") (b.rows "downtimes"))
+        (buildIdLists "comments" (syncTable (tableOf w "comments") (b.rows "comments"))
+          (syncTable (tableOf w "hosts") (b.rows "hosts")) (syncTable (tableOf w "services") (b.rows "services"))).1
+        (buildIdLists "comments" (syncTable (tableOf w "comments") (b.rows "comments"))
+          (syncTable (tableOf w "hosts") (b.rows "hosts")) (syncTable (tableOf w "services") (b.rows "services"))).2).2 := by
+  have hc := freshCache_get w b "comments" (by decide)
+  have hd := freshCache_get w b "downtimes" (by decide)
+  have hh := freshCache_get w b "hosts" (by decide)
+  have hs := freshCache_get w b "services" (by decide)
+  refine ⟨fun t ht h1 h2 => ?_, ?_, ?_⟩
+  · rw [rebuildLists_get_other _ _ h1 h2, freshCache_get w b t ht]
+  · rw [rebuildLists_get_hosts, hc, hd, hh, hs]
+  · rw [rebuildLists_get_services, hc, hd, hh, hs]
+
+/-! ## 7. a failed rebuild is flagged -/
+
+/-- A failed rebuild always leaves an error text.  It leaves the peer `Up` only if the peer was `Up` without
+    data before — a state no history reaches (C13 `up_implies_synced`). -/
+theorem rebuild_fail_flagged_general (w : World) (now : Int) (p : PeerSt) (b : BackendSt)
+    (h : (initAllTables w now p b).err ≠ .none) :
+    (initAllTables w now p b).p.lastError ≠ "" ∧
+      ((initAllTables w now p b).p.status = .up → p.status = .up ∧ p.cache = none) := by
+  obtain ⟨_, h2, h3⟩ := (initAllTables_spec w now p b).2.2 h
+  exact ⟨h2, h3⟩
+
+/-- A failed rebuild of a peer that satisfies the availability invariant (`Up` implies data and no error, which
+    holds after every history) leaves the peer not `Up` and with an error text. -/
+theorem rebuild_fail_flagged (w : World) (now : Int) (p : PeerSt) (b : BackendSt)
+    (hinv : p.status = .up → p.cache.isSome ∧ p.lastError = "")
+    (h : (initAllTables w now p b).err ≠ .none) :
+    (initAllTables w now p b).p.status ≠ .up ∧ (initAllTables w now p b).p.lastError ≠ "" := by
+  obtain ⟨h2, h3⟩ := rebuild_fail_flagged_general w now p b h
+  refine ⟨fun hu => ?_, h2⟩
+  obtain ⟨a, c⟩ := h3 hu
+  have := (hinv a).1
+  rw [c] at this; cases this
+
+example : (({} : PeerSt).status = .up → ({} : PeerSt).cache.isSome ∧ ({} : PeerSt).lastError = "") ∧
+    (initAllTables exWorld 100 {} exFailing).err ≠ .none := by decide
+
+/-- The invariant is needed: a peer that is `Up` without data (unreachable) stays `Up` through a failed rebuild
+    while the backend was seen recently. -/
+example : (initAllTables exWorld 100 { status := .up, lastOnline := 100 } { exBackend with mode := "refuse" }).err ≠ .none ∧
+    (initAllTables exWorld 100 { status := .up, lastOnline := 100 } { exBackend with mode := "refuse" }).p.status = .up := by
+  decide
+
+/-! ## 8. restart detection -/
+
+/-- A status refresh that is answered with a single status row whose `program_start` or `nagios_pid` differs from
+    what the peer remembers (both remembered values non-zero) returns `restartRequired`; the table set is
+    unchanged — no value of that reply is written. -/
+theorem restart_detected_status (w : World) (now : Int) (p : PeerSt) (b : BackendSt) (c : Cache) (st : ReplyRow)
+    (hdyn : (dynamicCols w.schema p.flags "status").isEmpty = false)
+    (hq : (query w now p b).2.2 = none) (hrow : b.rows "status" = [st])
+    (hps : p.programStart ≠ 0) (hpid : p.corePid ≠ 0)
+    (hdiff : replyInt st "program_start" ≠ p.programStart ∨ replyInt st "nagios_pid" ≠ p.corePid) :
+    (updateFullTable w now p b c "status").err = .restartRequired ∧
+      (updateFullTable w now p b c "status").cache = c := by
+  rw [updateFullTable_restart_status w now p b c st hdyn hq hrow hps hpid hdiff]
+  exact ⟨rfl, rfl⟩
+
+/-- a world whose status table has one dynamic column -/
+def exWorld2 : World :=
+  { cfg := {}, mainRestart := 100,
+    schema := { tables := [{ name := "status", cols := [{ name := "program_start", dtype := .int64, storage := .loc, fetch := "Dynamic" }] }] } }
+
+example : exBackend.rows "status" = [[("program_start", Lean.Json.num 5), ("nagios_pid", Lean.Json.num 7)]] := by
+  rfl
+example : (dynamicCols exWorld2.schema ({ programStart := 4, corePid := 7 } : PeerSt).flags "status").isEmpty = false ∧
+    (query exWorld2 100 { programStart := 4, corePid := 7 } exBackend).2.2 = none ∧
+    replyInt [("program_start", Lean.Json.num 5), ("nagios_pid", Lean.Json.num 7)] "program_start" ≠ 4 := by decide
+
+/-- A full refresh of any table that is answered with another number of rows than the table holds returns
+    `restartRequired`; the table set is unchanged — no row of that reply is written.  This covers all three
+    refresh paths of `UpdateFullTablesList`: plain tables, hosts / services, and the timeperiods. -/
+theorem restart_detected_count (w : World) (now : Int) (p : PeerSt) (b : BackendSt) (c : Cache) (t : String)
+    (hq : (query w now p b).2.2 = none) (hlen : (b.rows t).length ≠ (c.get t).length) :
+    ((dynamicCols w.schema p.flags t).isEmpty = false →
+      (updateFullTable w now p b c t).err = .restartRequired ∧ (updateFullTable w now p b c t).cache = c) ∧
+    ((updateFullObjects w now p b c t).err = .restartRequired ∧ (updateFullObjects w now p b c t).cache = c) ∧
+    (t = "timeperiods" →
+      (updateTimeperiods w now p b c).err = .restartRequired ∧ (updateTimeperiods w now p b c).cache = c) := by
+  refine ⟨fun hdyn => ?_, ?_, fun ht => ?_⟩
+  · rw [updateFullTable_restart_count w now p b c t hdyn hq hlen]; exact ⟨rfl, rfl⟩
+  · rw [updateFullObjects_restart_count w now p b c t hq hlen]; exact ⟨rfl, rfl⟩
+  · subst ht
+    rw [updateTimeperiods_restart_count w now p b c hq hlen]; exact ⟨rfl, rfl⟩
+
+example : (query exWorld 100 {} exBackend).2.2 = none ∧
+    (exBackend.rows "status").length ≠ (Cache.get [] "status").length := by decide
+
+/-- The list refresh stops at the first table that asks for a rebuild and hands the request up: the tables before
+    it were refreshed as wholes, the table itself and the ones after it are untouched. -/
+theorem restart_stops_list (w : World) (now : Int) (p : PeerSt) (b : BackendSt) (c : Cache) (t : String) (ts : List String)
+    (hq : (query w now p b).2.2 = none) (hlen : (b.rows t).length ≠ (c.get t).length)
+    (hdyn : (dynamicCols w.schema p.flags t).isEmpty = false) :
+    (updateFullList w now (t :: ts) p b c).err = .restartRequired ∧ (updateFullList w now (t :: ts) p b c).cache = c := by
+  obtain ⟨h1, h2, h3⟩ := restart_detected_count w now p b c t hq hlen
+  unfold updateFullList
+  simp only []
+  have hr : (if t == "timeperiods" then updateTimeperiods w now p b c
+      else if t == "hosts" || t == "services" then updateFullObjects w now p b c t
+      else updateFullTable w now p b c t).err = .restartRequired ∧
+      (if t == "timeperiods" then updateTimeperiods w now p b c
+      else if t == "hosts" || t == "services" then updateFullObjects w now p b c t
+      else updateFullTable w now p b c t).cache = c := by
+    split
+    · rename_i ht; exact h3 (by simpa using ht)
+    · split
+      · exact h2
+      · exact h1 hdyn
+  generalize (if t == "timeperiods" then updateTimeperiods w now p b c
+      else if t == "hosts" || t == "services" then updateFullObjects w now p b c t
+      else updateFullTable w now p b c t) = r at hr ⊢
+  obtain ⟨a, b1⟩ := hr
+  simp only [a]
+  exact ⟨trivial, b1⟩
+
+/-- When the delta update of a loop pass asks for a rebuild, the pass runs `InitAllTables` at once, on the peer as
+    the update left it; the pass's outcome is the rebuild's outcome (so 6 and 7 apply to it). -/
+theorem restart_rebuilds (w : World) (now : Int) (p : PeerSt) (b : BackendSt) (c : Cache) (fromT : Int)
+    (h : (updateDelta w now p b c fromT).err = .restartRequired) :
+    (deltaRun w now p b c fromT).p =
+        (initAllTables w now (withCache (updateDelta w now p b c fromT)) (updateDelta w now p b c fromT).b).p ∧
+      (deltaRun w now p b c fromT).err =
+        (initAllTables w now (withCache (updateDelta w now p b c fromT)) (updateDelta w now p b c fromT).b).err := by
+  unfold deltaRun finishStep
+  simp only [h]
+  exact ⟨trivial, trivial⟩
+
 end Lmd.C11
